@@ -200,6 +200,7 @@ def make_scripted_opt(script):
             self.i = 0
             self.calls = 0
             self.loss = None
+            self.reject = 16        # public attribute of LevenbergMarquardt (maximum rejections per step)
 
         def step(self, input, target=None, weight=None):
             last, loss, rej = script[min(self.i, len(script) - 1)]
